@@ -53,11 +53,15 @@ def exact_batches(r, svc):
     if not os.path.exists(C.FMODEL):
         return out
     probes = []
-    for m in (2, 3, 5):
+    # (the compact-protocol list header grows at 15 elements, its varint length again at 128)
+    for m in (2, 3, 5, 14, 15, 16, 40, 127, 128, 130):
         base = []
         for i in range(m):
             rec = G.gen_record(r.fork(), i, "b%d" % i)
             rec["span"] = i + 1
+            if m > 5:
+                # many small spans: no properties, no events, so that the whole batch stays near the limit
+                rec = dict(rec, props=[], events=[], name="b%d" % i)
             base.append(rec)
         base[-1] = dict(base[-1], name="p" * 200)
         probes.append(base)
@@ -166,7 +170,7 @@ def run(v, tier, seed, replay):
         "trusted_base": C.TRUSTED_BASE + ["thrift_codec 0.3.2 byte format: modelled (Model/Report/Thrift.lean), compared byte-for-byte on every batch, not proved", "UDP loopback delivers every datagram of a batch before report() returns"],
         "theorems": lean["theorems"], "axioms": lean["axioms"],
         "evaluations": len(cases), "distinct_nontrivial": len(nontriv),
-        "rule": "boundary-directed batches of 2/3/5 spans encoding to exactly 7999/8000/8001 bytes (sizes measured with the model's encoder); batches from VERIF_SEED: 0-300 records, name lengths chosen so that spans are ~8000/m bytes (m=1..10), spans within ±80 bytes of the limit alone, certainly-oversize spans at random positions, random small records; non-trivial = distinct batch that needed more than one datagram or had a skipped span",
+        "rule": "boundary-directed batches of 2/3/5/14/15/16/40/127/128/130 spans encoding to exactly 7999/8000/8001 bytes (sizes measured with the model's encoder); batches from VERIF_SEED: 0-300 records, name lengths chosen so that spans are ~8000/m bytes (m=1..10), spans within ±80 bytes of the limit alone, certainly-oversize spans at random positions, random small records; non-trivial = distinct batch that needed more than one datagram or had a skipped span",
         "samples": [{"spans": len(b), "name_lengths": [len(x["name"]) for x in b][:12]} for b in cases[:4]],
         "traces_validated_against_impl": len(cases) if impl is not None else 0, "stats": stats,
         "correspondence_mismatches": len(mism), "oracle_failures": len(fails), "skipped_spans_rechecked_alone": len(recheck),
